@@ -427,12 +427,25 @@ func C12(r *vf.Run) {
 						return w.rig.stepAlt(ma)
 					}
 					bad := false
+					var called []string
 					for j := 0; j < depth+4 && !bad; j++ {
 						res := step()
 						want := j >= depth
 						if res.pan == nil && res.stopped != want {
-							r.Fail("stopped-sticky:"+side, fmt.Sprintf("%s: step %d of a program with STP at depth %d returned stopped=%v", side, j, depth, res.stopped), nil)
+							r.Fail("stopped-sticky:"+side, fmt.Sprintf("%s: step %d of a program with STP at depth %d returned stopped=%v (methods called on the stopped CPU in between: %v)", side, j, depth, res.stopped, called), nil)
 							bad = true
+						}
+						if want && i%2 == 1 {
+							// the host goes on using the stopped CPU's other methods: none of them is a reset
+							skip := map[string]bool{"Reset": true, "Init": true, "InitFrom": true, "Step": true}
+							if side == "cpu65c816" {
+								w.rig.bm.M = mp
+								called = append(called, callNonResetMethods(&w.rig.prim, skip, g)...)
+							} else {
+								w.rig.am = ma
+								called = append(called, callNonResetMethods(w.rig.alt, skip, g)...)
+							}
+							w.cells["stp:other-methods-called-while-stopped"]++
 						}
 					}
 					if side == "cpu65c816" {
@@ -448,7 +461,11 @@ func C12(r *vf.Run) {
 							r.Fail("reset-keeps-stopped:"+side, "Reset left Stopped set", nil)
 						}
 					}
-					if res := step(); res.pan == nil && res.stopped {
+					irq := false
+					for _, n := range called {
+						irq = irq || n == "TriggerIRQ" // (the first Step then enters a handler whose code is arbitrary)
+					}
+					if res := step(); res.pan == nil && res.stopped && !irq {
 						r.Fail("stopped-after-reset:"+side, side+": first Step after Reset (a NOP) still reports stopped", nil)
 					}
 					r.Eval(1)
